@@ -319,14 +319,25 @@ func chunkStep(path, recv, name string) (int64, string) {
 			if id, ok := as.Lhs[0].(*ast.Ident); !ok || id.Name != "end" {
 				continue
 			}
-			be, ok := as.Rhs[0].(*ast.BinaryExpr)
-			if !ok || be.Op != token.ADD {
+			// offset + S1 [+ S2 ...]: peel the loop variable off the left end of the sum
+			var terms []ast.Expr
+			cur := as.Rhs[0]
+			for {
+				be, ok := cur.(*ast.BinaryExpr)
+				if !ok || be.Op != token.ADD {
+					break
+				}
+				terms = append([]ast.Expr{be.Y}, terms...)
+				cur = be.X
+			}
+			if l, ok := cur.(*ast.Ident); !ok || l.Name != iv.Name || len(terms) == 0 {
 				continue
 			}
-			if l, ok := be.X.(*ast.Ident); !ok || l.Name != iv.Name {
-				continue
+			step := terms[0]
+			for _, t := range terms[1:] {
+				step = &ast.BinaryExpr{X: step, Op: token.ADD, Y: t}
 			}
-			steps = append(steps, be.Y)
+			steps = append(steps, step)
 		}
 		return true
 	})
